@@ -181,3 +181,16 @@ package tabula
 //@   flags nosafety
 //@   ensures parent_unchanged: e == old(e)
 //@   ensures only_this_option_set: !isnil(res) && sameSource(res, e) && sameseq(res.options.pages, e.options.pages) && res.options.preserveLayout && res.options.excludeHeaders == e.options.excludeHeaders && res.options.excludeFooters == e.options.excludeFooters && res.options.byColumn == e.options.byColumn && res.options.joinParagraphs == e.options.joinParagraphs
+
+// ---- C11: repetition is judged over ALL pages of the document, whatever pages were selected for output ----
+// (a line repeated at the same marginal position on every page must be removed from a one-page selection too)
+//@ func (*Extractor) collectAllPages results (res, err)
+//@   property C11
+//@   flags nosafety
+//@   count visited: GetPage(k) when true
+//@   callsite GetPage(k) requires page_by_index: k == i
+//@   atreturn every_page_of_the_document_is_visited: visited == pageCount || (pageCount < 0 && visited == 0)
+//@   loop 0:
+//@     invariant 0 <= i && visited == i && (i <= pageCount || pageCount < 0)
+//@     invariant forall k int :: {allPages[k]} 0 <= k && k < len(allPages) ==> 0 <= allPages[k].index && allPages[k].index < i
+//@     decreases pageCount - i
